@@ -425,6 +425,46 @@ fn run_succ(c: &SuccCase) -> Verdict {
         Ok(Err(f)) => return Err(f),
         Ok(Ok(p)) => p,
     };
+    // iterator adaptors must agree with repeated next(): nth(k), skip(k), step_by(s), from the
+    // same arbitrary starting table (k small, so that word boundaries are crossed when the low
+    // word of t is close to all ones)
+    let k = c.pull % 67;
+    let advance = |t: &Tt, steps: usize| -> Option<Tt> {
+        let mut e = t.clone();
+        for _ in 0..steps {
+            let (s, w) = e.succ();
+            if w {
+                return None;
+            }
+            e = s;
+        }
+        Some(e)
+    };
+    let want_k = advance(&c.t, k);
+    let got_nth = match guard(|| x.iter_from().nth(k).map(|i| to_model(i.as_ref()))) {
+        Ok(v) => v,
+        Err(p) => return fail("panic:iterator", format!("{}: nth({}) from {} panicked: {}", fl, k, c.t.short(), p)),
+    };
+    ensure!(got_nth == want_k, "iter-from:nth", "{}: iterator started at {}: nth({}) = {:?} but {} calls of next() give {:?}", fl, c.t.short(), k, got_nth.as_ref().map(|t| t.short()), k + 1, want_k.as_ref().map(|t| t.short()));
+    let got_skip = lib!("skip", x.iter_from().skip(k).next().map(|i| to_model(i.as_ref())));
+    ensure!(got_skip == want_k, "iter-from:skip", "{}: iterator started at {}: skip({}).next() = {:?}, expected {:?}", fl, c.t.short(), k, got_skip.as_ref().map(|t| t.short()), want_k.as_ref().map(|t| t.short()));
+    let step = 1 + k % 9;
+    let got_steps: Vec<Option<Tt>> = lib!("step_by", {
+        let mut it = x.iter_from().step_by(step);
+        (0..3).map(|_| it.next().map(|i| to_model(i.as_ref()))).collect()
+    });
+    for (j, g) in got_steps.iter().enumerate() {
+        let w = advance(&c.t, j * step);
+        ensure!(*g == w, "iter-from:step_by", "{}: iterator started at {}: item {} of step_by({}) = {:?}, expected {:?}", fl, c.t.short(), j, step, g.as_ref().map(|t| t.short()), w.as_ref().map(|t| t.short()));
+    }
+    // two successive nth calls on one iterator (a skip after a skip)
+    let got2 = lib!("nth twice", {
+        let mut it = x.iter_from();
+        let a = it.nth(k).map(|i| to_model(i.as_ref()));
+        let b = it.nth(step).map(|i| to_model(i.as_ref()));
+        (a, b)
+    });
+    ensure!(got2.0 == want_k && got2.1 == want_k.as_ref().and_then(|t| advance(t, step + 1)), "iter-from:nth-twice", "{}: iterator started at {}: nth({}) then nth({}) = {:?}", fl, c.t.short(), k, step, (got2.0.as_ref().map(|t| t.short()), got2.1.as_ref().map(|t| t.short())));
     let word_carry = c.t.w.len() >= 2 && c.t.w[0] == !0;
     let mut labels = vec![format!("fam:{}", fl), format!("n:{}", n), format!("size:{}", n_label(n))];
     if word_carry {
@@ -445,7 +485,7 @@ fn run_succ(c: &SuccCase) -> Verdict {
 pub fn def() -> PropDef {
     PropDef {
         id: "C08",
-        rule: "order: cases = (family, 3..8 tables) of one n in 0..=12 (plus, for Lut, tables of other sizes, often with the same low block): b is `opposed` to a (greater at a high bit/word position and smaller at a low one, or the reverse) or related (equal, complement, 1-2 bits, one word); for all ordered pairs cmp, partial_cmp, <,<=,>,>=, == are compared with the harness's big-integer comparison (bit 2^n-1 first; n first), antisymmetry and transitivity are checked directly, sorting by cmp must be sorted for the oracle, and the fixed-width hex strings must order like cmp. Non-trivial = a pair that differs at >= 2 positions with opposite direction, or in n. Exhaustive: all ordered pairs n<=2 (quick) / n<=3 (thorough). iterator: complete runs of all_functions(n), n<=3 (quick) / n<=4 (thorough): first item zero, each item the numeric successor of the previous (model +1), strictly increasing under cmp, exactly 2^(2^n) items, then None twice. successor: through the hooks, from generated tables of n in 0..=12 (classes: low k bits / low k words all ones, within 300 of the top, generated) one successor step must equal model+1 mod 2^(2^n) with the right wrap flag, and the iterator started there must yield exactly the following successors and stop after the all-ones table. Non-trivial = the step carries across a 64-bit word or wraps.",
+        rule: "order: cases = (family, 3..8 tables) of one n in 0..=12 (plus, for Lut, tables of other sizes, often with the same low block): b is `opposed` to a (greater at a high bit/word position and smaller at a low one, or the reverse) or related (equal, complement, 1-2 bits, one word); for all ordered pairs cmp, partial_cmp, <,<=,>,>=, == are compared with the harness's big-integer comparison (bit 2^n-1 first; n first), antisymmetry and transitivity are checked directly, sorting by cmp must be sorted for the oracle, and the fixed-width hex strings must order like cmp. Non-trivial = a pair that differs at >= 2 positions with opposite direction, or in n. Exhaustive: all ordered pairs n<=2 (quick) / n<=3 (thorough). iterator: complete runs of all_functions(n), n<=3 (quick) / n<=4 (thorough): first item zero, each item the numeric successor of the previous (model +1), strictly increasing under cmp, exactly 2^(2^n) items, then None twice. successor: through the hooks, from generated tables of n in 0..=12 (classes: low k bits / low k words all ones, within 300 of the top, generated) one successor step must equal model+1 mod 2^(2^n) with the right wrap flag, and the iterator started there must yield exactly the following successors and stop after the all-ones table; nth(k), skip(k), step_by(s) and two successive nth calls on that iterator (k < 67) must agree with repeated next(). Non-trivial = the step carries across a 64-bit word or wraps.",
         assumptions: vec![
             "the 2^64-step public path to a word carry is replaced by the cfg-guarded hooks verif_successor / verif_all_functions_from, which call the real next_inplace / iterator",
             "value(), from_blocks()/set_bit() as observation/loading channel",
